@@ -145,7 +145,15 @@ def obligations(ctx, cfg):
             ParserWrapper(ctx, 'parse_topic_name', 22 if q else 30),
             ParserWrapper(ctx, 'parse_subscription_name', 29 if q else 37),
             ParserWrapper(ctx, 'parse_project_id', cap),
-            StreamingControl(ctx, 2 if q else 3)]
+            StreamingControl(ctx, 2 if q else 3), _create_numbers()]
+
+
+def _create_numbers():
+    # C17.c: out-of-range / negative numbers in CreateSubscription are normalised, never stored raw
+    from props.C04 import C04c
+    ob = C04c()
+    ob.id = 'C17.c-create-subscription-numbers'
+    return ob
 
 
 def kani_harnesses(cfg):
